@@ -117,6 +117,9 @@ fn fault_seq(
                 ));
                 // ---- implementation-side monitors (independent of the model) ----
                 let got = multiset(&dr.iter().map(|x| (x.1, x.2)).collect::<Vec<_>>());
+                if let Some(m) = c03_monitor(&evs, base, &got, !act.completes(n)) {
+                    emit_monitor_now(&m);
+                }
                 if !act.completes(n) {
                     seq.check(dg == 0 && dd == 0.0, || {
                         format!("metrics changed by an abandoned builder: total_gc_count {dg:+}, allocation_debt {dd:+}")
